@@ -259,7 +259,10 @@ func (e *Evaluator) evalComponentStmt(node *ast.ComponentStmt, env *object.Env) 
 	newEnv := object.NewEnclosedEnv(env)
 
 	if node.Argument != nil {
-		for key, arg := range node.Argument.Pairs {
+		// arguments are evaluated in alphabetical order of their names, so that
+		// the reported error doesn't depend on Go's random map order
+		for _, key := range sortedKeys(node.Argument.Pairs) {
+			arg := node.Argument.Pairs[key]
 			val := e.Eval(arg, env)
 
 			if isError(val) {
@@ -645,7 +648,10 @@ func (e *Evaluator) evalArrayLiteral(
 func (e *Evaluator) evalObjectLiteral(node *ast.ObjectLiteral, env *object.Env) object.Object {
 	pairs := make(map[string]object.Object)
 
-	for key, value := range node.Pairs {
+	// values are evaluated in alphabetical order of their keys, so that
+	// the reported error doesn't depend on Go's random map order
+	for _, key := range sortedKeys(node.Pairs) {
+		value := node.Pairs[key]
 		valueObj := e.Eval(value, env)
 
 		if isError(valueObj) {
